@@ -85,6 +85,7 @@ pub fn property(_ctx: &Ctx) -> Property {
         subs: vec![
             sub::<Case, _, _>("history", 3200, 80000, |c| (program_strategy(HISTORY, if c.thorough() { 100 } else { 40 }, if c.thorough() { 5 } else { 3 }, 4), any::<u64>()), check),
             sub::<Case, _, _>("conflict", 2400, 60000, |c| (program_strategy(CONFLICT, if c.thorough() { 100 } else { 40 }, 4, 4), any::<u64>()), check),
+            sub::<Case, _, _>("counters", 1600, 40000, |c| (program_strategy(COUNTER, if c.thorough() { 100 } else { 40 }, 4, 4), any::<u64>()), check),
             sub::<Case, _, _>("text", 1600, 40000, |c| (program_strategy(TEXT, if c.thorough() { 100 } else { 40 }, 3, 4), any::<u64>()), check),
         ],
     }
